@@ -113,6 +113,11 @@ def laws(x: Any, write: Callable[[Any], Any], read: Callable[[Any], Any], snappe
     d = G.first_diff(before, after)
     if d:
         raise Failure('mutate', f'write() changed its input at {d["path"]}', d)
+    w1b = _call('write', lambda: write(x))
+    if w1b != w1:
+        # (PCF element UUIDs come from the harness counter, so this holds there too)
+        raise Failure('unstable', 'writing the same value twice gives different output' + _where(w1, w1b),
+                      {'first': _show(w1), 'second': _show(w1b)})
     y = _call('read', lambda: read(w1), w1)
     ysnap = _call('read', lambda: snapper(y), w1)
     d = G.first_diff(before, ysnap)
